@@ -200,5 +200,10 @@ func commonExtras(s *pgen.Std) []*pgen.Type {
 		s.SE, pgen.Ptr(s.SE), s.SEq, pgen.Slice(s.SEq), s.NBool, pgen.Slice(s.NBool), s.NU8, pgen.Slice(s.NU8),
 		s.XDupA, pgen.Ptr(s.XDupB), pgen.Slice(s.XDupB), s.XN, pgen.Map(s.XN, s.XDupA),
 		pgen.Slice(pgen.B("uint8")), pgen.Array(0, pgen.B("int")), pgen.Array(1, s.SP), pgen.Array(3, pgen.Ptr(pgen.B("string"))),
-		pgen.Ptr(pgen.Ptr(s.SV)), pgen.Ptr(pgen.Ptr(pgen.B("int"))), pgen.Map(pgen.B("string"), pgen.Array(2, s.SP))}
+		pgen.Ptr(pgen.Ptr(s.SV)), pgen.Ptr(pgen.Ptr(pgen.B("int"))), pgen.Map(pgen.B("string"), pgen.Array(2, s.SP)),
+		// underscore-prefixed and blank field names; field types from a third package; a type with a
+		// hand-written Compare/Equal behind a top-level pointer (structural there); arrays of slices as map
+		// elements (a reused scratch array would alias them)
+		s.SU, pgen.Ptr(s.SU), pgen.Slice(s.SU), s.XT, pgen.Ptr(s.XT), pgen.Slice(s.XT), pgen.Ptr(s.SCi),
+		pgen.Map(pgen.B("string"), pgen.Array(2, pgen.Slice(pgen.B("int")))), pgen.Map(pgen.B("float64"), pgen.Ptr(pgen.B("int"))), pgen.Map(pgen.B("complex128"), pgen.B("string"))}
 }
